@@ -98,7 +98,12 @@ class Gateway:
         if self.persistence:
             await self.persistence.load()
             await self.persistence.start()
-        await self.transport.connect()
+        try:
+            await self.transport.connect()
+        except BaseException:
+            if self.persistence:
+                await self.persistence.stop()
+            raise
         return self
 
     async def __aexit__(
@@ -108,9 +113,11 @@ class Gateway:
         traceback: TracebackType | None,
     ) -> None:
         """Disconnect from the transport."""
-        await self.transport.disconnect()
-        if self.persistence:
-            await self.persistence.stop()
+        try:
+            await self.transport.disconnect()
+        finally:
+            if self.persistence:
+                await self.persistence.stop()
 
 
 @dataclass
